@@ -30,7 +30,7 @@ ENGINES = {
     "simA": {"sut": ["simA/core.cpp", "simA/ops_buf.cpp", "simA/ops_ss.cpp", "simA/ops_str_a.cpp", "simA/ops_str_b.cpp", "simA/run.cpp",
                      "simA/enum19.cpp", "simA/main.cpp"],
              "rt": ["simrt/heap.cpp", "simrt/clock_fatal.cpp"],
-             "link": ["-Wl,--wrap=abort", "-Wl,--wrap=fprintf", "-Wl,--wrap=malloc", "-Wl,--wrap=calloc", "-Wl,--wrap=realloc", "-Wl,--wrap=free"], "bin": "simA"},
+             "link": ["-Wl,--wrap=abort", "-Wl,--wrap=fprintf", "-Wl,--wrap=malloc", "-Wl,--wrap=calloc", "-Wl,--wrap=realloc", "-Wl,--wrap=free", "-Wl,--wrap=strdup", "-Wl,--wrap=strndup", "-Wl,--wrap=aligned_alloc", "-Wl,--wrap=posix_memalign"], "bin": "simA"},
     "simB": {"sut": ["simB/ops.cpp", "simB/ops2.cpp", "simB/main.cpp"], "rt": [], "so": ["simB/rt.cpp", "simrt/heap.cpp", "simrt/clock_fatal.cpp"], "bin": "simB",
              "link": ["-rdynamic", "-ldl"] + ["-Wl,--wrap=" + s for s in
                       ["abort", "fprintf", "memcpy", "memmove", "memset", "memcmp", "memchr", "strlen", "wmemcpy", "wmemmove", "wmemset", "wmemcmp", "wmemchr", "wcslen",
@@ -39,9 +39,9 @@ ENGINES = {
                        "pthread_rwlock_rdlock", "pthread_rwlock_wrlock",
                        "setlocale", "localeconv", "strtok", "rand", "srand", "strerror", "gmtime", "localtime", "asctime", "ctime", "getenv", "setenv", "putenv", "unsetenv",
                        "mblen", "mbtowc", "wctomb", "mbstowcs", "wcstombs", "mbrtowc", "wcrtomb", "mbrlen", "mbsrtowcs", "wcsrtombs", "toupper", "tolower", "towupper", "towlower",
-                       "sprintf", "vsnprintf", "malloc", "calloc", "realloc", "free"]]},
+                       "sprintf", "vsnprintf", "malloc", "calloc", "realloc", "free", "strdup", "strndup", "aligned_alloc", "posix_memalign"]]},
     "simC": {"sut": ["simC/simc.cpp", "simC/main.cpp"], "rt": ["simrt/heap.cpp", "simrt/clock_fatal.cpp"],
-             "link": ["-Wl,--wrap=abort", "-Wl,--wrap=fprintf", "-Wl,--wrap=malloc", "-Wl,--wrap=calloc", "-Wl,--wrap=realloc", "-Wl,--wrap=free"], "bin": "simC"},
+             "link": ["-Wl,--wrap=abort", "-Wl,--wrap=fprintf", "-Wl,--wrap=malloc", "-Wl,--wrap=calloc", "-Wl,--wrap=realloc", "-Wl,--wrap=free", "-Wl,--wrap=strdup", "-Wl,--wrap=strndup", "-Wl,--wrap=aligned_alloc", "-Wl,--wrap=posix_memalign"], "bin": "simC"},
 }
 
 def tree_hash(paths):
